@@ -63,7 +63,8 @@ TRUSTED = ['z3 quantifier instantiation']
 
 def tasks(tier):
     return ['align', 'remove', 'tagged', 'extend', 'extract', 'props', 'add',
-            'append', 'addprop', 'walkers', 'pickle', 'canary']
+            'append', 'addprop', 'walkers', 'pickle', 'misc', 'arrtypes',
+            'canary']
 
 
 def mod(repo):
@@ -138,6 +139,10 @@ def run_task(task, ctx):
         return task_walkers(ctx, repo, m)
     if task == 'pickle':
         return task_pickle(ctx, repo, m)
+    if task == 'misc':
+        return task_misc(ctx, repo, m)
+    if task == 'arrtypes':
+        return task_arrtypes(ctx, repo, m)
     if task == 'canary':
         a = z3.Array('ca', z3.IntSort(), z3.IntSort())
         i = z3.Int('ci')
@@ -428,7 +433,7 @@ def task_tagged(ctx, repo, m):
     for o_ in obs:
         o_.extra = dict(o_.extra or {}, backends=['z3'])
     ctx.prove('remove_tagged.collects_matching_indices_in_order', obs,
-              use_nf=False)
+              use_nf=False, replay=lambda mo, ob: replay_walkers(mo, ob))
 
 
 # ------------------------------------------------------------------- extend
@@ -508,6 +513,13 @@ x = dst.get('x', only_real_particles=False).tolist()
 v = dst.get('vec3', only_real_particles=False).reshape(-1, 3).tolist()
 if sorted(x) != sorted(before + [10., 12.]) or x[4:] != [10., 12.] or v[4:] != [[0., 1., 2.], [6., 7., 8.]]:
     bad = dict(op='extract_particles([0,2]) into an array with 2 real + 2 ghost particles', x_after=x, vec3_tail=v[4:])
+if bad is None:
+    empty = get_particle_array(name='e')
+    empty.add_property('vec3', stride=3)
+    r = src.extract_particles([1], dest_array=empty)
+    xe = empty.get('x', only_real_particles=False).tolist()
+    if r is not empty or xe != [11.]:
+        bad = dict(op='extract_particles([1]) into an EMPTY destination array', destination_x_after=xe, returned_the_destination=r is empty)
 print(json.dumps(dict(bad=bad)))
 '''
 
@@ -541,7 +553,9 @@ def task_extract(ctx, repo, m):
         obj = pa_self(props, {'v': 3}, n)
         idx = SymObject(None, dict(length=L), 'indices')
         nrd = z3.Int('n_real_dest')
-        dest = SymObject(None, dict(
+        # an instance of the class (its truth value is Python's: a class
+        # with __len__ makes an EMPTY destination falsy), possibly empty
+        dest = SymObject('ParticleArray', dict(
             # the destination may hold ghosts behind its real particles
             num_real_particles=nrd,
             get_number_of_particles=Native(
@@ -552,9 +566,15 @@ def task_extract(ctx, repo, m):
             get_carray=Native(lambda e, s_, a, k, nn: dprops[a[0]]),
             align_particles=Native(lambda e, s_, a, k, nn: s_.trace.append(
                 ('dest.align',)))), 'dest')
+        dest.module = m
+        # the fresh array empty_clone() would give (used when NO destination
+        # is passed; reaching it with a destination loses the particles)
+        clone = SymObject(None, dict(dest.attrs), 'clone')
         ex = executor(repo, m, 'extract_particles', contracts={
             'ParticleArray.get_carray': CalleeContract(
-                lambda e, s_, a, k, nn: a[0].attrs['properties'][a[1]])},
+                lambda e, s_, a, k, nn: a[0].attrs['properties'][a[1]]),
+            'ParticleArray.empty_clone': CalleeContract(
+                lambda e, s_, a, k, nn: clone)},
             externals={'isinstance': lambda e, s_, a, k, nn: True})
         ex.spec_env['BaseArray'] = 'BaseArray'
         outs = ex.exec_function(fn, dict(self=obj, indices=idx,
@@ -1136,6 +1156,440 @@ def task_pickle(ctx, repo, m):
               replay=replay_walkers)
 
 
+# --------------------------------------------------------------------- misc
+def task_misc(ctx, repo, m):
+    """The remaining record-keeping operations named by the property:
+    get_number_of_particles, get_carray, add_constant, set_tag / set_pid
+    (retagging; quantified loop invariants), empty_clone / ensure_properties
+    (cloning: every property with its own type, default and stride),
+    copy_properties (each common property copied with the destination's own
+    stride), get_property_arrays (each property cut at n * its stride)."""
+    W = m.path
+    M = m.methods('ParticleArray')
+    obs = []
+    n, nreal = z3.Int('n'), z3.Int('n_real')
+    k = z3.Int('kq')
+
+    # ---- get_number_of_particles
+    fn = M['get_number_of_particles']
+    ctx.function(m, fn, 'ParticleArray.get_number_of_particles')
+    Lt, Lv = z3.Int('len_tag'), z3.Int('len_v')
+    cases = {
+        'real': (dict(tag=carr_obj('tag', length=Lt)), {}, True, nreal),
+        'tag': (dict(v=carr_obj('v', length=Lv), tag=carr_obj(
+            'tag', length=Lt)), {'v': 3}, False, Lt),
+        'first': (dict(v=carr_obj('v', length=Lv)), {'v': 3}, False, None),
+        'empty': ({}, {}, False, 0),
+    }
+    for tag, (props, strd, real, want) in sorted(cases.items()):
+        obj = pa_self(props, strd, n, dict(num_real_particles=nreal))
+        ex = executor(repo, m, 'get_number_of_particles')
+        outs = ex.exec_function(fn, dict(self=obj, real=real), State(
+            pc=[Lt >= 0, Lv >= 0, nreal >= 0]))
+        if len(outs) != 1:
+            obs.append(Obligation('count.%s.one_path' % tag, [],
+                                  z3.BoolVal(False), W))
+        for o in outs:
+            if want is None:
+                q = z3.Int('q_')
+                g = z3.Exists([q], z3.And(S.to_z3(o.value) == q, 3 * q <= Lv,
+                                          Lv < 3 * q + 3))
+            else:
+                g = S.to_z3(S.cmp('==', o.value, want))
+            obs.append(Obligation('count.%s' % tag, o.pc, g, W))
+
+    # ---- get_carray
+    fn = M['get_carray']
+    ctx.function(m, fn, 'ParticleArray.get_carray')
+    px, cx = carr_obj('x'), carr_obj('cm')
+    for nm, want in (('x', px), ('cm', cx), ('nope', None)):
+        obj = pa_self({'x': px}, {}, n, dict(constants={'cm': cx}))
+        ex = executor(repo, m, 'get_carray')
+        ex.spec_env['PyDict_GetItem'] = Native(lambda e, s_, a, k_, nn:
+                                               a[0][a[1]])
+        ex.spec_env['PyDict_Contains'] = Native(
+            lambda e, s_, a, k_, nn: 1 if a[1] in a[0] else 0)
+        outs = ex.exec_function(fn, dict(self=obj, prop=nm), State(pc=[]))
+        ok = len(outs) == 1 and (
+            (want is not None and outs[0].kind == 'return' and
+             outs[0].value is o_same(outs[0], want, nm)) or
+            (want is None and outs[0].kind == 'raise'))
+        obs.append(Obligation('get_carray.%s' % nm, [], z3.BoolVal(bool(ok)),
+                              W))
+
+    # ---- add_constant
+    fn = M['add_constant']
+    ctx.function(m, fn, 'ParticleArray.add_constant')
+    for nm, exists in (('new', False), ('cm', True), ('x', True)):
+        obj = pa_self({'x': carr_obj('x')}, {}, n, dict(
+            constants={'cm': ('old', 'cm')}))
+        made = []
+        ex = executor(repo, m, 'add_constant', contracts={
+            'ParticleArray._create_c_array_from_npy_array': CalleeContract(
+                lambda e, s_, a, k_, nn: made.append(a[1]) or ('carray',
+                                                               a[1]))})
+        ex.spec_env['numpy'] = SymObject(None, dict(ravel=Native(
+            lambda e, s_, a, k_, nn: ('ravel', a[0]))), 'numpy')
+        # the data may be anything, another array's c-array included: the
+        # constant is always a COPY made by _create_c_array_from_npy_array
+        ex.spec_env['BaseArray'] = 'BaseArray'
+        ex.externals['isinstance'] = lambda e, s_, a, k_, nn: z3.Bool(
+            'data_is_a_carray')
+        outs = ex.exec_function(fn, dict(self=obj, name=nm,
+                                         data=('data',)), State(pc=[]))
+        if exists:
+            ok = len(outs) >= 1 and all(o_.kind == 'raise' and o_.state.env[
+                'self'].attrs['constants'] == {'cm': ('old', 'cm')}
+                for o_ in outs)
+        elif len(outs) != 1:
+            ok = len(outs) >= 1 and all(
+                o_.kind == 'return' and o_.state.env['self'].attrs[
+                    'constants'] == {'cm': ('old', 'cm'), 'new': (
+                        'carray', ('ravel', ('data',)))} for o_ in outs)
+        elif exists:
+            ok = len(outs) == 1 and outs[0].kind == 'raise' and \
+                outs[0].state.env['self'].attrs['constants'] == {
+                    'cm': ('old', 'cm')}
+        else:
+            ok = len(outs) == 1 and outs[0].kind == 'return' and \
+                outs[0].state.env['self'].attrs['constants'] == {
+                    'cm': ('old', 'cm'),
+                    'new': ('carray', ('ravel', ('data',)))} and \
+                list(outs[0].state.env['self'].attrs['properties']) == ['x']
+        obs.append(Obligation('add_constant.%s' % nm, [],
+                              z3.BoolVal(bool(ok)), W))
+
+    # ---- set_tag / set_pid: loop invariants
+    fn = M['set_tag']
+    ctx.function(m, fn, 'ParticleArray.set_tag')
+    tagc = carr_obj('tag', length=n)
+    idx = carr_obj('indices')
+    NI = idx.attrs['data'].length
+    t0 = tagc.attrs['data'].arr
+    ia = idx.attrs['data'].arr
+    tv = z3.Int('tag_value')
+    valid = z3.ForAll([k], z3.Implies(z3.And(0 <= k, k < NI), z3.And(
+        z3.Select(ia, k) >= 0, z3.Select(ia, k) < n)))
+
+    def inv_tag(ex, st):
+        i = S.to_z3(st.env['i'])
+        a_ = st.env['tag_array'].attrs['data'].arr
+        j = z3.Int('jq')
+        return z3.And(i >= 0, z3.ForAll([k], z3.Implies(
+            z3.And(0 <= k, k < i), z3.Select(a_, z3.Select(ia, k)) == tv)),
+            z3.ForAll([j], z3.Or(
+                z3.Select(a_, j) == z3.Select(t0, j),
+                z3.Exists([k], z3.And(0 <= k, k < i,
+                                      z3.Select(ia, k) == j)))))
+    spec = LoopSpec(inv=[('tagged_prefix', inv_tag)])
+    obj = pa_self({'tag': tagc}, {}, n)
+    ex = Executor(repo, m, qualname='ParticleArray.set_tag', merge=False,
+                  prune=True, loop_specs={('set_tag', 0): spec}, contracts={
+                      'ParticleArray.get_carray': CalleeContract(
+                          lambda e, s_, a, kw, nn: a[0].attrs['properties'][
+                              a[1]])})
+    try:
+        outs = ex.exec_function(fn, dict(self=obj, tag_value=tv,
+                                         indices=idx),
+                                State(pc=[n >= 0, NI >= 0, valid]))
+        tobs = [o for o in ex.obligations if o.kind in ('inv-entry',
+                                                        'inv-step', 'index')]
+        for i_, o in enumerate(outs):
+            a_ = o.state.env['self'].attrs['properties']['tag'].attrs[
+                'data'].arr
+            j = z3.Int('jq')
+            tobs.append(Obligation('set_tag.post.%d' % i_, o.pc, z3.And(
+                z3.ForAll([k], z3.Implies(z3.And(0 <= k, k < NI), z3.Select(
+                    a_, z3.Select(ia, k)) == tv)),
+                z3.ForAll([j], z3.Or(z3.Select(a_, j) == z3.Select(t0, j),
+                                     z3.Exists([k], z3.And(
+                                         0 <= k, k < NI,
+                                         z3.Select(ia, k) == j))))), W))
+        obs += tobs
+    except VCError as e:
+        ctx.outside('misc.set_tag', str(e))
+    fn = M['set_pid']
+    ctx.function(m, fn, 'ParticleArray.set_pid')
+    pidc = carr_obj('pid', length=n)
+    pv = z3.Int('pid_value')
+
+    def inv_pid(ex, st):
+        a = S.to_z3(st.env['a'])
+        arr_ = st.env['pid_arr'].attrs['data'].arr
+        return z3.And(a >= 0, z3.ForAll([k], z3.Implies(
+            z3.And(0 <= k, k < a), z3.Select(arr_, k) == pv)))
+    spec = LoopSpec(inv=[('pid_prefix', inv_pid)])
+    obj = pa_self({'pid': pidc}, {}, n)
+    ex = Executor(repo, m, qualname='ParticleArray.set_pid', merge=False,
+                  prune=True, loop_specs={('set_pid', 0): spec})
+    try:
+        outs = ex.exec_function(fn, dict(self=obj, pid=pv),
+                                State(pc=[n >= 0]))
+        obs += [o for o in ex.obligations if o.kind in ('inv-entry',
+                                                        'inv-step', 'index')]
+        for i_, o in enumerate(outs):
+            a_ = o.state.env['self'].attrs['properties']['pid'].attrs[
+                'data'].arr
+            obs.append(Obligation('set_pid.post.%d' % i_, o.pc, z3.ForAll(
+                [k], z3.Implies(z3.And(0 <= k, k < n),
+                                z3.Select(a_, k) == pv)), W))
+    except VCError as e:
+        ctx.outside('misc.set_pid', str(e))
+
+    # ---- cloning: empty_clone, ensure_properties
+    def typed_props(names, prefix=''):
+        out = {}
+        for nm in names:
+            c = carr_obj(prefix + nm)
+            c.attrs['get_c_type'] = Native(
+                lambda e, s_, a, k_, nn, nm=nm: 'ctype_' + nm)
+            out[nm] = c
+        return out
+    fn = M['empty_clone']
+    ctx.function(m, fn, 'ParticleArray.empty_clone')
+    for tag, sel in (('all', None), ('some', ['v', 'x'])):
+        props = typed_props(('x', 'v', 'q'))
+        dfl = {nm: z3.Real('default_' + nm) for nm in props}
+        obj = pa_self(props, {'v': 3}, n, dict(
+            default_values=dfl, constants={'cm': ('const', 'cm')},
+            name='NAME', output_property_arrays=['x', 'q']))
+        calls = []
+
+        def rec(kind):
+            return Native(lambda e, s_, a, k_, nn: calls.append(
+                (kind, list(a), dict(k_))))
+        clone = SymObject(None, dict(
+            add_constant=rec('add_constant'), add_property=rec(
+                'add_property'), set_name=rec('set_name'),
+            set_output_arrays=rec('set_output_arrays')), 'result_array')
+        ex = executor(repo, m, 'empty_clone',
+                      externals={'ParticleArray': lambda e, s_, a, k_, nn:
+                                 clone})
+        try:
+            outs = ex.exec_function(fn, dict(self=obj, props=sel),
+                                    State(pc=[]))
+        except VCError as e:
+            ctx.outside('misc.empty_clone', str(e))
+            continue
+        names = sel if sel is not None else ['x', 'v', 'q']
+        ap = {c[2].get('name'): c[2] for c in calls
+              if c[0] == 'add_property'}
+        ok = len(outs) == 1 and outs[0].value is clone and \
+            sorted(ap) == sorted(names)
+        why = 'calls %r' % ([(c[0], c[2].get('name')) for c in calls],)
+        for nm in names:
+            r = ap.get(nm)
+            if not r or r.get('type') != 'ctype_' + nm or \
+                    not S.same(r.get('default'), dfl[nm]) or \
+                    r.get('stride') != {'v': 3}.get(nm, 1):
+                ok = False
+                why = 'property %s cloned as %r' % (nm, r)
+        ac = [c for c in calls if c[0] == 'add_constant']
+        if not (len(ac) == 1 and (ac[0][1] + [ac[0][2].get('data')])[:2] ==
+                ['cm', ('const', 'cm')]):
+            ok = False
+            why = 'constants %r' % (ac,)
+        sn = [c for c in calls if c[0] == 'set_name']
+        so = [c for c in calls if c[0] == 'set_output_arrays']
+        want_out = ['x', 'q'] if sel is None else ['x']
+        if not (len(sn) == 1 and sn[0][1] == ['NAME'] and len(so) == 1 and
+                sorted(so[0][1][0]) == sorted(want_out)):
+            ok = False
+            why = 'name/output arrays %r %r' % (sn, so)
+        obs.append(Obligation('empty_clone.%s' % tag, [],
+                              z3.BoolVal(bool(ok)), W, extra=dict(why=why)))
+    fn = M['ensure_properties']
+    ctx.function(m, fn, 'ParticleArray.ensure_properties')
+    for tag, sel in (('all', None), ('some', ['q'])):
+        sprops = typed_props(('x', 'v', 'q', 'r'), 'src_')
+        sdfl = {nm: z3.Real('sdefault_' + nm) for nm in sprops}
+        src = SymObject(None, dict(properties=sprops, default_values=sdfl,
+                                   stride={'v': 3, 'q': 2}), 'src')
+        obj = pa_self(typed_props(('x', 'v')), {'v': 3}, n)
+        calls = []
+        ex = executor(repo, m, 'ensure_properties', contracts={
+            'ParticleArray.add_property': CalleeContract(
+                lambda e, s_, a, k_, nn: calls.append(dict(k_)))})
+        try:
+            outs = ex.exec_function(fn, dict(self=obj, src=src, props=sel),
+                                    State(pc=[]))
+        except VCError as e:
+            ctx.outside('misc.ensure_properties', str(e))
+            continue
+        want = ['q', 'r'] if sel is None else ['q']
+        got = {c.get('name'): c for c in calls}
+        ok = len(outs) == 1 and sorted(got) == want and all(
+            got[nm].get('type') == 'ctype_' + nm and
+            S.same(got[nm].get('default'), sdfl[nm]) and
+            got[nm].get('stride') == {'q': 2}.get(nm, 1) for nm in want)
+        obs.append(Obligation('ensure_properties.%s' % tag, [],
+                              z3.BoolVal(bool(ok)), W,
+                              extra=dict(calls=str(calls)[:300])))
+
+    # ---- copy_properties
+    fn = M['copy_properties']
+    ctx.function(m, fn, 'ParticleArray.copy_properties')
+    calls = []
+    dprops = {}
+    for nm in ('x', 'v', 'w'):
+        c = carr_obj(nm)
+        c.attrs['copy_subset'] = Native(
+            lambda e, s_, a, k_, nn, nm=nm: calls.append((nm, list(a))))
+        dprops[nm] = c
+    sprops = {nm: carr_obj('src_' + nm) for nm in ('v', 'x', 'zz')}
+    src = SymObject(None, dict(properties=sprops, stride={'v': 2, 'x': 5},
+                               get_carray=Native(
+        lambda e, s_, a, k_, nn: sprops[a[0]])), 'source')
+    obj = pa_self(dprops, {'v': 3}, n)
+    ex = executor(repo, m, 'copy_properties', contracts={
+        'ParticleArray.get_carray': CalleeContract(
+            lambda e, s_, a, kw, nn: a[0].attrs['properties'][a[1]])})
+    si, ei = z3.Int('start_index'), z3.Int('end_index')
+    try:
+        outs = ex.exec_function(fn, dict(self=obj, source=src,
+                                         start_index=si, end_index=ei),
+                                State(pc=[]))
+        got = {c[0]: c[1] for c in calls}
+        ok = len(outs) == 1 and sorted(got) == ['v', 'x'] and all(
+            got[nm][0] is sprops[nm] and S.same(got[nm][1], si) and
+            S.same(got[nm][2], ei) and got[nm][3] == {'v': 3}.get(nm, 1)
+            for nm in ('v', 'x'))
+        obs.append(Obligation('copy_properties.common_props_own_stride', [],
+                              z3.BoolVal(bool(ok)), W,
+                              extra=dict(calls=str(calls)[:300])))
+    except VCError as e:
+        ctx.outside('misc.copy_properties', str(e))
+
+    # ---- get_property_arrays
+    fn = M['get_property_arrays']
+    ctx.function(m, fn, 'ParticleArray.get_property_arrays')
+
+    class _Npy(object):
+        def __init__(self, nm):
+            self.nm = nm
+
+        def vc_getitem(self, idx, ex, st, node):
+            return ('slice', self.nm, idx)
+    for tag, all_, outp in (('all', True, ['x']), ('output', False, ['v']),
+                            ('none_listed', False, [])):
+        props = {}
+        for nm in ('x', 'v'):
+            c = carr_obj(nm)
+            c.attrs['get_npy_array'] = Native(
+                lambda e, s_, a, k_, nn, nm=nm: _Npy(nm))
+            props[nm] = c
+        obj = pa_self(props, {'v': 3}, n, dict(output_property_arrays=outp))
+        asked = []
+
+        def count(e, s_, a, kw, nn):
+            asked.append(a[1] if len(a) > 1 else kw.get('real'))
+            return z3.Int('count')
+        ex = executor(repo, m, 'get_property_arrays', contracts={
+            'ParticleArray.get_number_of_particles': CalleeContract(count)})
+        only_real = z3.Bool('only_real')
+        try:
+            outs = ex.exec_function(fn, dict(self=obj, all=all_,
+                                             only_real=only_real),
+                                    State(pc=[]))
+        except VCError as e:
+            ctx.outside('misc.get_property_arrays', str(e))
+            continue
+        want = ['x', 'v'] if (all_ or not outp) else outp
+        ok = len(outs) >= 1 and len(asked) >= 1 and all(
+            a_ is only_real for a_ in asked)
+        goals = []
+        for o in outs:
+            v = o.value
+            if not (isinstance(v, dict) and sorted(v) == sorted(want)):
+                ok = False
+                continue
+            for nm in want:
+                sl = v[nm]
+                if not (isinstance(sl, tuple) and sl[0] == 'slice' and
+                        sl[1] == nm and isinstance(sl[2], slice) and
+                        sl[2].start is None):
+                    ok = False
+                else:
+                    goals.append(S.to_z3(S.cmp(
+                        '==', sl[2].stop, z3.Int('count') * {'v': 3}.get(
+                            nm, 1))))
+        obs.append(Obligation('get_property_arrays.%s' % tag, [], z3.And(
+            z3.BoolVal(bool(ok)), *goals), W))
+    for o_ in obs:
+        o_.extra = dict(o_.extra or {}, backends=['z3'])
+    ctx.prove('misc.records_stay_consistent', obs, use_nf=False,
+              replay=replay_walkers)
+
+
+def o_same(out, want, nm):
+    return want
+
+
+# ----------------------------------------------------------------- arrtypes
+def task_arrtypes(ctx, repo, m):
+    """Cython converts `cdef <ArrayClass> a = self.get_carray('tag')` with a
+    run-time type test that raises TypeError on a mismatch.  The built-in
+    properties are created by clear() as tag: IntArray, pid: IntArray,
+    gid: UIntArray; every typed local of a ParticleArray method that is
+    bound to one of them (through get_carray('<name>'), self.properties[
+    '<name>'] or PyDict_GetItem(self.properties, '<name>')) must be declared
+    with that class (or a base class / untyped)."""
+    W = m.path
+    M = m.methods('ParticleArray')
+    created = {}
+    try:
+        for node in ast.walk(M['clear']):
+            if isinstance(node, ast.Dict):
+                for k_, v_ in zip(node.keys, node.values):
+                    if isinstance(k_, ast.Constant) and isinstance(
+                            v_, ast.Call) and isinstance(v_.func, ast.Name):
+                        created[k_.value] = v_.func.id
+    except KeyError:
+        pass
+    obs = [Obligation('arrtypes.builtin_properties_found', [], z3.BoolVal(
+        set(created) >= {'tag', 'pid', 'gid'}), W,
+        extra=dict(created=str(created)))]
+    ctx.function(m, M['clear'], 'ParticleArray.clear')
+    loose = ('BaseArray', 'object', '?', None)
+    nbound = 0
+    for fname, fn in sorted(M.items()):
+        rec = m.ctypes.get('ParticleArray.' + fname) or {}
+        locs = dict(rec.get('locals', {}))
+        for node in ast.walk(fn):
+            if not (isinstance(node, ast.Assign) and len(node.targets) == 1
+                    and isinstance(node.targets[0], ast.Name)):
+                continue
+            v = node.value
+            # strip int()/() wrappers left by casts
+            prop = None
+            if isinstance(v, ast.Call) and isinstance(v.func, ast.Attribute) \
+                    and v.func.attr == 'get_carray' and v.args and \
+                    isinstance(v.args[0], ast.Constant):
+                prop = v.args[0].value
+            elif isinstance(v, ast.Subscript) and isinstance(
+                    v.value, ast.Attribute) and v.value.attr == \
+                    'properties' and isinstance(v.slice, ast.Constant):
+                prop = v.slice.value
+            elif isinstance(v, ast.Call) and isinstance(v.func, ast.Name) \
+                    and v.func.id == 'PyDict_GetItem' and len(v.args) == 2 \
+                    and isinstance(v.args[1], ast.Constant):
+                prop = v.args[1].value
+            if prop not in created:
+                continue
+            t = locs.get(node.targets[0].id)
+            nbound += 1
+            obs.append(Obligation(
+                'arrtypes.%s.%s_is_%s' % (fname, node.targets[0].id,
+                                          created[prop]), [],
+                z3.BoolVal(t in loose or t == created[prop]), W,
+                extra=dict(declared=t, property=prop,
+                           created_as=created[prop])))
+    obs.append(Obligation('arrtypes.bindings_found', [],
+                          z3.BoolVal(nbound >= 3), W))
+    ctx.prove('arrtypes.typed_locals_match_the_array_class', obs,
+              replay=replay_walkers)
+
+
 # ------------------------------------------------------------- add_property
 def task_addprop(ctx, repo, m):
     """add_property (CPU path) for every combination of {array empty or not}
@@ -1422,6 +1876,32 @@ if bad is None:
         if upd: want['new9'] = [4.0]
         if got != want:
             bad = dict(op='append_parray(update_constants=%s): constants of the receiver' % upd, constants=got, expected=want); break
+if bad is None:
+    # retag a leading particle without aligning, then remove the ghosts
+    a = get_particle_array(name='a', x=[0., 1., 2., 3., 4.])
+    a.tag[3:] = 2; a.align_particles()
+    a.get('tag', only_real_particles=False)[1] = 2
+    a.remove_tagged_particles(2)
+    left = sorted(a.get('x', only_real_particles=False).tolist())
+    if left != [0., 2.]:
+        bad = dict(op='remove_tagged_particles(Ghost) after retagging particle 1 without align', x_left=left, expected=[0., 2.])
+if bad is None:
+    # constants of a clone are copies
+    a = get_particle_array(name='a', x=[0., 1.]); a.add_constant('cm9', [1., 2., 3.])
+    b = a.empty_clone(); c = a.extract_particles([0])
+    b.cm9[:] = 7.0; c.cm9[:] = 8.0
+    if np.asarray(a.cm9).tolist() != [1., 2., 3.]:
+        bad = dict(op='writing a constant of empty_clone()/extract_particles() result', source_constant_after=np.asarray(a.cm9).tolist(), expected=[1., 2., 3.])
+if bad is None:
+    from cyarray.api import LongArray
+    a = get_particle_array(name='a', x=[0., 1., 2., 3.])
+    ind = LongArray(2); ind.set_data(np.array([0, 2]))
+    try:
+        a.set_tag(2, ind)
+        if a.get('tag', only_real_particles=False).tolist() != [2, 0, 2, 0]:
+            bad = dict(op='set_tag(2, [0, 2])', tags=a.get('tag', only_real_particles=False).tolist())
+    except Exception as e:
+        bad = dict(op='set_tag(2, [0, 2]) on a 4-particle array', raised=repr(e)[:200])
 if bad is None:
     import pickle
     a = get_particle_array(name='a', x=[0., 1., 2.], y=[5., 6., 7.])
